@@ -196,9 +196,9 @@ func c40IndexAnySet(c *Ctx, fnName, set string, min int) {
 			return
 		}
 		n++
-		s, isConst := HtmConstStr(call.Call.Args[1])
+		s, isConst := HtmConstStr(BaselineArgs(&call.Call)[1])
 		if !isConst || norm(s) != norm(set) {
-			bad = "a scan uses " + Term(call.Call.Args[1])
+			bad = "a scan uses " + Term(BaselineArgs(&call.Call)[1])
 		}
 	})
 	if n < min {
@@ -320,7 +320,7 @@ func c40Render(c *Ctx) {
 	var rawSelf, rawChild, rawVal []string
 	nSelf, nChild := 0, 0
 	for _, call := range c40StringWrites(fn) {
-		for _, arg := range call.Call.Args {
+		for _, arg := range BaselineArgs(&call.Call) {
 			if base, ok := c40FieldLoad(c, arg, "html.Node", "Data"); ok {
 				if base == n {
 					nSelf++
@@ -347,7 +347,7 @@ func c40Render(c *Ctx) {
 	// positive routing
 	esc := Calls("html.escape")
 	valEsc := esc.Where("arg1 is an Attribute.Val", func(in ssa.Instruction) bool {
-		_, ok := c40FieldLoad(c, in.(*ssa.Call).Call.Args[1], "html.Attribute", "Val")
+		_, ok := c40FieldLoad(c, BaselineArgs(&in.(*ssa.Call).Call)[1], "html.Attribute", "Val")
 		return ok
 	})
 	c.Has(name, valEsc)
@@ -367,7 +367,7 @@ func c40Token(c *Ctx) {
 	if fn := c.MustFn(ts); fn != nil {
 		var rawVal []string
 		for _, call := range c40StringWrites(fn) {
-			for _, arg := range call.Call.Args {
+			for _, arg := range BaselineArgs(&call.Call) {
 				if _, ok := c40FieldLoad(c, arg, "html.Attribute", "Val"); ok {
 					rawVal = append(rawVal, c.P.Pos(call.Pos()))
 				}
@@ -375,7 +375,7 @@ func c40Token(c *Ctx) {
 		}
 		c.Check(len(rawVal) == 0, rule, ts+": attribute values are never written raw", fn.Pos(), "", "Attribute.Val written unescaped at "+strings.Join(rawVal, ", "))
 		c.Has(ts, Calls("html.escape").Where("arg1 is an Attribute.Val", func(in ssa.Instruction) bool {
-			_, ok := c40FieldLoad(c, in.(*ssa.Call).Call.Args[1], "html.Attribute", "Val")
+			_, ok := c40FieldLoad(c, BaselineArgs(&in.(*ssa.Call).Call)[1], "html.Attribute", "Val")
 			return ok
 		}))
 	}
